@@ -151,7 +151,7 @@ PROPS = {
         "technique": "runtime monitoring: differential oracle across write modes (Direct as "
                      "reference vs. buffered / flusher / async with slowed writer thread) over "
                      "record histories and raw io::Write chunk sequences incl. all 256 one-byte chunks",
-        "level_text": "Held on the executions explored (apart from the listed known findings): the "
+        "level_text": "Held on the executions explored (the three findings that were listed as known for a while are repaired - fixes 1587999, a6863d3): the "
                       "same seeded sequence of records and operations is executed once per write "
                       "mode under a frozen virtual clock and the ordered (name, content) lists "
                       "after shutdown are compared; raw chunk sequences through ArcFileLogWriter: "
